@@ -189,7 +189,8 @@ def build(pid, ties=(), log=print):
                 br.ties[t] = "missing"
                 continue
             c = cone_of(tf)
-            lost = [u for u in untranslated_names if ("Proofs/Tie_%s.v" % u[len("src_"):]) in c]
+            import gen_src
+            lost = [u for u in untranslated_names if gen_src.tie_file_of(u) in c]
             if lost:
                 br.ties[t] = "unavailable (translator could not read %s)" % ", ".join(lost)
                 continue
